@@ -390,7 +390,7 @@ func drawC18(t *rapid.T, scenario string) C18Case {
 	c := C18Case{Scenario: scenario, Seed: rapid.Byte().Draw(t, "seed"), Size: rapid.SampledFrom([]int{0, 1, 17, 300, 5000, 17, 300, 1, 5000, 300, 17, 1<<20 - 40, 2<<20 - 40}).Draw(t, "size"), Chunks: rapid.IntRange(1, 5).Draw(t, "chunks")}
 	if rapid.Bool().Draw(t, "custom") {
 		c.Escaping = rapid.SampledFrom([]string{"hex", "base64url"}).Draw(t, "escaping")
-		c.Sharding = rapid.SampledFrom([]string{"r12", "r122", "r133", "none"}).Draw(t, "sharding")
+		c.Sharding = rapid.SampledFrom([]string{"r12", "r122", "r133", "none", "deep"}).Draw(t, "sharding")
 	}
 	tail := rapid.SliceOfN(rapid.Byte(), 4, 8).Draw(t, "tail")
 	c.KeyA = val.Txt("A" + string(rapid.SliceOfN(rapid.Byte(), 0, 6).Draw(t, "ka")) + string(tail))
